@@ -107,7 +107,10 @@ class Ctx:
             all_v.extend(r.violations)
         new_v, known_v = [], []
         for v in all_v:
-            kf = known_keys.get((self.prop, v["key"]))
+            # the thorough tier re-runs every rule on the pcre2 feature configuration and tags the key; a finding
+            # is the same construct under either configuration
+            base_key = v["key"][:-len("[pcre2]")] if v["key"].endswith("[pcre2]") else v["key"]
+            kf = known_keys.get((self.prop, base_key))
             if kf is not None:
                 known_v.append((v, kf))
             else:
